@@ -60,6 +60,50 @@ Theorem C07_blocks_column_agree : forall sys b (k : Z), 0 < s_block_raster sys -
 Proof. exact blocks_column_agree. Qed.
 Print Assumptions C07_blocks_column_agree.
 
+(* ---- round 2 ---------------------------------------------------------------------------------- *)
+(* OwnArgs follows from what the gradient constructors guarantee: arbitrary gradients (samples at the
+   raster-cell centres, shape_dur = n*raster) and extended trapezoids (shape_dur = tt[-1] on the raster);
+   trapezoids, RF, ADC, delays and triggers need no side condition (Props/C11.v, Props/C04.v give the
+   premises for accepted constructor calls) *)
+Theorem C07_own_args_from_constructors : forall g (l : list arg), 0 < g ->
+  (forall e, In (AEv e) l -> e_kind e = KGrad ->
+     (exists n, e_shape_dur e == inject_Z n * g /\ e_tlast e == (inject_Z n - (1 # 2)) * g) \/
+     (exists k, e_shape_dur e == inject_Z k * g /\ e_tlast e == e_shape_dur e)) ->
+  OwnArgs g l.
+Proof. exact own_args_from_constructors. Qed.
+Print Assumptions C07_own_args_from_constructors.
+
+(* time_range variants: the result is, up to Qeq of the times, a contiguous segment of the result
+   without time_range — the selected blocks sit at the block starts of the full timeline *)
+Theorem C07_adc_times_time_range : forall bs lo hi, (begin_block bs lo < length bs)%nat ->
+  exists pre mid post, adc_times bs = pre ++ mid ++ post /\ Forall2 Rq (adc_times_tr bs lo hi) mid.
+Proof. exact adc_times_time_range. Qed.
+Print Assumptions C07_adc_times_time_range.
+Theorem C07_rf_times_time_range : forall bs lo hi, (begin_block bs lo < length bs)%nat ->
+  exists pre mid post, rf_times bs = pre ++ mid ++ post /\ Forall2 Rzq (rf_times_tr bs lo hi) mid.
+Proof. exact rf_times_time_range. Qed.
+Print Assumptions C07_rf_times_time_range.
+Theorem C07_waveforms_time_range : forall g ch bs lo hi, (begin_block bs lo < length bs)%nat ->
+  exists pre mid post, wave_pieces g ch bs = pre ++ mid ++ post /\
+                       Forall2 Rqq (wave_pieces_tr g ch bs lo hi) mid.
+Proof. exact waveforms_time_range. Qed.
+Print Assumptions C07_waveforms_time_range.
+
+(* sequences read from file: on-raster durations written as integers and multiplied back give the
+   same running sums (block starts of every consumer) and the same total *)
+Theorem C07_reread_same_timeline : forall sys bs, 0 < s_block_raster sys ->
+  (forall b, In b bs -> exists k : Z, b_stored b == inject_Z k * s_block_raster sys) ->
+  (forall i, prefix_sum (map (reread_block sys) bs) i == prefix_sum bs i) /\
+  total_duration (map (reread_block sys) bs) == total_duration bs.
+Proof. exact reread_same_timeline. Qed.
+Print Assumptions C07_reread_same_timeline.
+
+(* duration(): every event counter lies between 0 and the number of blocks *)
+Theorem C07_event_count_le : forall bs,
+  Forall (fun c => (0 <= c <= Z.of_nat (length bs))%Z) (event_count bs).
+Proof. exact event_count_le. Qed.
+Print Assumptions C07_event_count_le.
+
 (* non-vacuity: an own-system argument list; the stored value is the latest end *)
 Example C07_example :
   OwnArgs (1 # 100000) [AEv ex_trap; ADur (3 # 10000)] /\
